@@ -88,7 +88,7 @@ def execute(dev):
                 s_vb = (cfg.ascender - cfg.descender) / g.vb[3]
                 allowed = tol + 0.01 * s_vb * max(1.0, common._use_scale_matrix(x.matrix, s_vb)) + paths.spacing(py) / 2
             else:
-                allowed = tol + 2.0 * scale + paths.spacing(py) / 2
+                allowed = tol + common.unit_tol(cfg) * scale + paths.spacing(py) / 2
             d = paths.hausdorff(px, py)
             if d > allowed:
                 out.append(bad("C06.layer-outline", f"{[hex(c) for c in g.cps]} layer {i}: outlines {d:.2f} units apart (allowed {allowed:.2f})"))
@@ -97,7 +97,7 @@ def execute(dev):
                 out.append(bad("C06.layer-fill-kind", f"layer {i}: {x.tag} with reuse, {y.tag} without"))
                 continue
             probes = [p for p in y.interior(7) if x.contains(p)]
-            st = picture.compare(lambda p: _premul(y.fill_at(p)), lambda p: _premul(x.fill_at(p)), probes, 2.0 * scale + tol)
+            st = picture.compare(lambda p: _premul(y.fill_at(p)), lambda p: _premul(x.fill_at(p)), probes, common.unit_tol(cfg) * scale + tol)
             if st["bad"]:
                 out.append(bad("C06.layer-colour", f"{[hex(c) for c in g.cps]} layer {i} ({x.tag}): {st['bad']} of {st['valid']} interior probes differ, worst {st['worst']}/255 e.g. {st['first'][:1]}"))
         if at_r is not None and at_n is not None:
@@ -107,7 +107,7 @@ def execute(dev):
             probes = common.region_probes(cfg, adv, common.user_affine(cfg), 20)
             gscale = max([1.0] + [max(abs(l.matrix[0]) + abs(l.matrix[2]), abs(l.matrix[1]) + abs(l.matrix[3])) for l in lr]) if not fmt.endswith("svg") else \
                 max([1.0] + [common._use_scale_matrix(l.matrix, (cfg.ascender - cfg.descender) / g.vb[3]) for l in lr])
-            st = picture.compare(at_n, at_r, probes, 2.0 * gscale + tol)
+            st = picture.compare(at_n, at_r, probes, common.unit_tol(cfg) * gscale + tol)
             if st["bad"]:
                 out.append(bad("C06.picture", f"{[hex(c) for c in g.cps]}: {st['bad']} of {st['valid']} probes differ between the two builds, e.g. {st['first'][:1]}"))
     struct_r = common.graph_fingerprint(fr) if not fmt.endswith("svg") else common.svg_fingerprint(fr)
